@@ -29,7 +29,7 @@ def classify(spec, cex):
 
 def run(tier, seed, only=None):
     if tier == 'thorough':
-        os.environ['C31_N2'] = '4'; os.environ['C31_N3'] = '3'        # read by checks/h_c31.py in the worker processes
+        os.environ['C31_N2'] = '3'; os.environ['C31_N3'] = '2'        # read by checks/h_c31.py in the worker processes
     from pony.orm import core, serialization as ser
     from checks import h_c31 as h
     rep = Report('C31', 'other',
@@ -43,11 +43,11 @@ def run(tier, seed, only=None):
     T = 150 if tier == 'quick' else 900
     specs = [dict(module='checks.h_c31', fn=f, cond_timeout=T, path_timeout=T / 2, **({'setup': su} if su else {})) for f, su in h.HARNESSES]
     if only: specs = [s for s in specs if only in s['fn']]
-    rep.bounds = {'key parts': 'two parts: len <= %d, three parts: len <= %d, alphabet %r; mixed int/str: unbounded int, str len <= %d'
-                               % (h.N2, h.N3, h.ALPHA, h.N2),
+    rep.bounds = {'key parts': 'two parts: len <= %d, three parts: len <= %d, alphabet %r; mixed int/str: int in %r, str len <= %d'
+                               % (h.N2, h.N3, h.ALPHA, h.INTVALS, h.N2),
                   'duck model': 'object with attributes a (plain, symbolic int), b (plain, optionally lazy), r (to-one, optionally None), '
                                 's (to-many, 1-2 items); related key shapes (attributes, columns) %r; key column values unbounded ints '
-                                '(0..1 in the whole-Bag.to_dict harnesses, whose result dictionaries hash the keys)' % (h.PK_SHAPES,),
+                                '(%r where a key is rendered to text; 0..1 in the whole-Bag.to_dict harnesses, whose result dictionaries hash the keys)' % (h.PK_SHAPES, h.KEYVALS),
                   'options': 'with_collections, with_lazy, related_objects, only (subset of 3 names, or absent), exclude (subset of 1-2 names), '
                              'only/exclude as list or as text with blank or comma separators',
                   'real model': 'Dept(1 key attr/1 col), Proj(2/2, string parts with , and *), ProjDetail(1/2), Task(2/3), Person with lazy, '
